@@ -149,6 +149,32 @@ def analyse(fn, facts, E, is_prim_call, keys_by_sig):
             verdict = Site(fn, n, False, "result of %s discarded" % callee_name(n))
         sites.append(verdict)
 
+    # a partial sum that is added into another accumulator afterwards (`written += pair_written`) is part of that one
+    def _terms(e_):
+        u_ = unwrap(e_)
+        if isinstance(u_, dict) and u_.get("k") == "Bin" and u_.get("op") == "+":
+            return _terms(u_["lhs"]) + _terms(u_["rhs"])
+        return [u_]
+    drained = {}
+    for n in ir.walk(fn["body"]):
+        tgt = None
+        srcs = []
+        if n.get("k") == "Bin" and n.get("op") in ("+=", "="):
+            lp = path(n["lhs"])
+            if lp and len(lp) == 1 and lp[0].startswith("l:"):
+                ts = _terms(n["rhs"])
+                if n["op"] == "+=" or any(isinstance(t_, dict) and path(t_) == lp for t_ in ts):
+                    tgt = lp[0]
+                    srcs = [path(t_) for t_ in ts if isinstance(t_, dict)]
+        if tgt is None:
+            continue
+        for sp in srcs:
+            if sp and len(sp) == 1 and sp[0] != tgt and sp[0] in accs and any(x[1] in ("+=", "initcall", "=") for x in accs[sp[0]]):
+                later = [x for x in accs[sp[0]] if x[0] > order[id(n)]]
+                if not later:
+                    drained[sp[0]] = tgt
+                    accs.setdefault(tgt, []).append((order[id(n)], "+="))
+
     # returns
     rets = []
     first_emit = min([order[id(s.call)] for s in sites], default=None)
@@ -161,8 +187,10 @@ def analyse(fn, facts, E, is_prim_call, keys_by_sig):
         if is_emitter_call(u):
             return True, "returns the emitter's own count"
         p = path(u)
-        if p and len(p) == 1 and p[0] in real_accs:
+        if p and len(p) == 1 and p[0] in real_accs and p[0] not in drained:
             return True, "returns accumulator %s" % p[0].split("#")[0][2:]
+        if p and len(p) == 1 and p[0] in drained:
+            return False, "partial sum %s (already added into %s)" % (p[0].split("#")[0][2:], drained[p[0]].split("#")[0][2:])
         if u.get("k") == "Bin" and u.get("op") == "+":
             a, wa_ = ret_ok(u["lhs"])
             b, wb_ = ret_ok(u["rhs"])
@@ -199,4 +227,4 @@ def analyse(fn, facts, E, is_prim_call, keys_by_sig):
             rets.append((n, False, "returns constant %s on a path that has already emitted bytes" % cv))
         else:
             rets.append((n, False, "returns %s, which is not the byte accumulator" % why))
-    return sites, rets, real_accs
+    return sites, rets, set(a for a in real_accs if a not in drained)
